@@ -310,39 +310,48 @@ example : Lexable [] (prB genLevels 0 (.atom (.size .b (.bin .mul (.lit 2) (.bin
 
 /- full-strength statement (false on the current tree):
    theorem elab_one_cmd : Spec.cmdOf env kbs s = some c → elabStmt env kbs s = .ok c
-   The hypotheses of the proved theorem are exactly the forms of four open findings, each with a refuting example below:
-   C19-blob-load (plain blob load), C19-prog-blob-zeros (8-byte fuse blob whose first word is zero), C19-call-reset,
-   C19-keyblob-byteswap (`encrypt` with a key blob that asks for byte swapping). -/
+   The hypotheses of the proved theorem are exactly the forms of the two open findings, each with a refuting example below:
+   C19-blob-load (plain blob load), C19-prog-blob-zeros (8-byte fuse blob whose first word is zero).
+   (`call`/`reset` and the key blob's `byteSwap` are covered since commits f13ece3 and 0aa60e6.) -/
 
-/-- every supported statement becomes exactly the one command the Spec states — except the four recorded forms -/
+/-- every supported statement (load of file / source / pattern / fuse value / 4- or 8-byte fuse blob, erase, enable, call, jump,
+    jump_sp, reset, version_check, keystore_to_nv / keystore_from_nv, keywrap, encrypt incl. byteSwap) becomes exactly the one
+    command the Spec states — except the two recorded blob forms -/
 theorem elab_one_cmd_partial (env : Env) (kbs : List KeyBlobDef) (s : Stmt) (c : Cmd)
     (h1 : Spec.isPlainBlobLoad env s = false) (h2 : Spec.isProgBlobLeadingZeros env s = false)
-    (h3 : Spec.isCallOrReset s = false) (h4 : Spec.isSwappedEncrypt env kbs s = false)
     (h : Spec.cmdOf env kbs s = some c) : elabStmt env kbs s = .ok c :=
-  elab_one_cmd_except env kbs (fun e v => eval_refines env.vars e v) s c h1 h2 h3 h4 h
+  elab_one_cmd_except env kbs (fun e v => eval_refines env.vars e v) s c h1 h2 h
 
 /-- refuting examples of the full-strength statement, one per excluded form -/
 theorem elab_one_cmd_counterexamples :
     (Spec.cmdOf {} [] (.load .none (.blob "aabbccdd") (.addr (.lit 16))) = some (.load 16 0 [0xaa, 0xbb, 0xcc, 0xdd]) ∧
       elabStmt {} [] (.load .none (.blob "aabbccdd") (.addr (.lit 16))) = .ok (.load 16 0 [0xdd, 0xcc, 0xbb, 0xaa])) ∧
     (Spec.cmdOf {} [] (.load (.at (.lit 4)) (.blob "0000000011223344") (.addr (.lit 8))) = some (.prog 8 4 0 0x44332211) ∧
-      elabStmt {} [] (.load (.at (.lit 4)) (.blob "0000000011223344") (.addr (.lit 8))) = .ok (.prog 8 4 0x44332211 0)) ∧
-    (Spec.cmdOf {} [] (.call (.lit 16) .none) = some (.call 16 (.i 0)) ∧
-      elabStmt {} [] (.call (.lit 16) .none) = .error (.py .other)) ∧
-    (Spec.cmdOf {} [] .reset = some .reset ∧ elabStmt {} [] .reset = .error (.py .other)) := by decide
+      elabStmt {} [] (.load (.at (.lit 4)) (.blob "0000000011223344") (.addr (.lit 8))) = .ok (.prog 8 4 0x44332211 0)) := by decide
 
-/-- the boot sections carry the ids written in the file — proved only when these are 0, 1, 2, … in order, because
-    `load_from_config` numbers the sections by position (known finding C19-section-id; refuting example below) -/
-theorem section_ids_partial (cfg : Config) (ids : List Int) (h : Spec.sectionUids cfg = some ids)
-    (hpos : ids = (List.range ids.length).map Int.ofNat) : sectionUids cfg = ids := by
-  have hl : ids.length = cfg.sections.length := by
-    unfold Spec.sectionUids at h
-    exact mapM_some_length _ _ _ h
+/-- the boot sections carry the ids written in the file -/
+theorem section_ids (cfg : Config) (ids : List Int) (h : Spec.sectionUids cfg = some ids) : sectionUids cfg = .ok ids := by
+  unfold Spec.sectionUids at h
   unfold sectionUids
-  rw [← hl]; exact hpos.symm
+  generalize cfg.sections = secs at h
+  induction secs generalizing ids with
+  | nil => simp at h; subst h; rfl
+  | cons s t ih =>
+    simp only [List.mapM_cons, Option.bind_eq_bind, Option.bind_eq_some_iff] at h
+    obtain ⟨v, hv, r, hr, hc⟩ := h
+    simp at hc; subst hc
+    cases hs : s.1 with
+    | s t' => simp [hs] at hv
+    | i w =>
+      simp [hs] at hv; subst hv
+      have hr' := ih r hr
+      rw [List.mapM_cons, hr']
+      simp [hs, valueToInt, bind, Except.bind, pure, Except.pure]
 
-theorem section_ids_counterexample :
-    Spec.sectionUids { sections := [(.i 5, [])] } = some [5] ∧ sectionUids { sections := [(.i 5, [])] } = [0] := by decide
+example : Spec.sectionUids { sections := [(.i 5, []), (.i 7, [])] } = some [5, 7] ∧
+    sectionUids { sections := [(.i 5, []), (.i 7, [])] } = .ok [5, 7] := by decide
+example : Spec.cmdOf {} [] (.call (.lit 16) (.arg (.lit 3))) = some (.call 16 (.i 3)) ∧
+    elabStmt {} [] (.call (.lit 16) (.arg (.lit 3))) = .ok (.call 16 (.i 3)) ∧ elabStmt {} [] .reset = .ok .reset := by decide
 
 /-- a section's statements become one command each, in order -/
 theorem section_one_cmd_each (env : Env) (ss : List Stmt) (ds : List (String × Dict))
